@@ -40,7 +40,8 @@ FLOAT_TYPES = lin.FLOAT_TYPES
 NUM_PREFIX = ("GNU_gama::Vec<", "GNU_gama::Mat<", "GNU_gama::CovMat<", "GNU_gama::MatVec", "GNU_gama::VecBase",
               "GNU_gama::MatBase", "GNU_gama::SymMat", "GNU_gama::BandMat", "GNU_gama::TransVec",
               "GNU_gama::TransMat", "std::vector<double", "std::vector<float", "std::array<double",
-              "std::pair<double", "std::tuple<double")
+              "std::pair<double", "std::tuple<double", "GNU_gama::BlockDiagonal<", "GNU_gama::SparseMatrix<",
+              "GNU_gama::SparseVector<")
 
 _TABLE = None
 
@@ -195,6 +196,16 @@ def is_num_t(t):
     return t0.startswith(NUM_PREFIX)
 
 
+_ST = {}
+
+
+def stripped(name):
+    r = _ST.get(name)
+    if r is None:
+        r = _ST[name] = F.strip_targs(name or "")
+    return r
+
+
 def unwrap(n):
     while n is not None and n.get("k") in CASTS and n.get("c"):
         n = n["c"][0]
@@ -202,7 +213,8 @@ def unwrap(n):
 
 
 def plain(n):
-    return lin.plain_callee(n)
+    c = stripped(n.get("callee") or "")
+    return c[5:] if c.startswith("std::") else c
 
 
 def fkey(fn):
@@ -226,6 +238,8 @@ MATH_DIMLESS = {"sin", "cos", "tan", "asin", "acos", "atan", "sinh", "cosh", "ta
 MATH_SAME = {"fmod", "remainder", "fmin", "fmax", "min", "max", "hypot", "copysign", "fdim"}
 MATH_ATAN2 = {"atan2", "atan2f"}
 MATH_BOOL = {"isnan", "isinf", "isfinite", "signbit"}
+MATVEC_CLASSES = {"MemRep", "MatVecBase", "VecBase", "Vec", "MatBase", "Mat", "CovMat", "SymMat", "BandMat",
+                  "TransVec", "TransMat", "MatVec", "BlockDiagonal", "SparseMatrix", "SparseVector"}
 CONTAINER_ADD = {"push_back", "emplace_back", "push_front", "insert", "emplace"}
 STREAM_MANIP = {"setw", "setprecision", "setfill", "fixed", "scientific", "left", "right", "setiosflags",
                 "resetiosflags", "showpos", "noshowpos", "internal"}
@@ -269,11 +283,11 @@ class Model:
         return fn.file in self.scope_files
 
     def is_model_cls(self, owner):
-        return strip_targs(owner or "") == self.T["model_class"]
+        return stripped(owner or "") == self.T["model_class"]
 
     # ---------------------------------------------------------------- fields
     def field_value(self, owner, member, t):
-        owner = strip_targs(owner or "")
+        owner = stripped(owner or "")
         k = "%s::%s" % (owner, member)
         if k in self.fields:
             return self.fields[k]
@@ -293,7 +307,7 @@ class Model:
         return None             # bottom: not written (yet)
 
     def write_field(self, fn, node, owner, member, t, v):
-        owner = strip_targs(owner or "")
+        owner = stripped(owner or "")
         if not is_num_t(t) or v is None:
             return
         key = (owner, member)
@@ -309,6 +323,8 @@ class Model:
         if fn.key in stack or fn.body is None:
             return set()
         pidx = {p.get("decl"): i for i, p in enumerate(fn.params) if "decl" in p}
+        for d in self.local_defs(fn):
+            pidx.pop(d, None)           # a parameter that is assigned in the body is not forwarded as it is
         out = set()
         for n in fn.walk():
             if n.get("k") == "CXXOperatorCallExpr" and n.get("op") == "<<":
@@ -329,8 +345,7 @@ class Model:
                     if i in gs and o.get("k") == "DeclRefExpr" and o["ref"].get("dk") == "parm" \
                             and o["ref"].get("decl") in pidx:
                         out.add(pidx[o["ref"]["decl"]])
-        if not stack:
-            self._psink[fn.key] = out
+        self._psink[fn.key] = out
         return out
 
     def local_defs(self, fn):
@@ -416,7 +431,7 @@ class Model:
                 continue
             for init in fn.rec.get("inits", []) or []:
                 if init.get("field") and init.get("init") is not None:
-                    r.setdefault((strip_targs(fn.cls), init["field"]), []).append((fn, init["init"]))
+                    r.setdefault((stripped(fn.cls), init["field"]), []).append((fn, init["init"]))
             if fn.body is None:
                 continue
             for n in fn.walk():
@@ -425,13 +440,13 @@ class Model:
                     l = unwrap(n["c"][0])
                     b = self._elem_base(l) or l
                     if b.get("k") == "MemberExpr" and b.get("mk") == "field":
-                        r.setdefault((strip_targs(b.get("owner") or ""), b["member"]), []).append((fn, n["c"][1]))
+                        r.setdefault((stripped(b.get("owner") or ""), b["member"]), []).append((fn, n["c"][1]))
                 elif n.get("k") == "CXXOperatorCallExpr" and n.get("op") in ("=", "+=", "-=", "*=", "/="):
                     a = call_args(n)
                     if len(a) == 2:
                         b = unwrap(a[0])
                         if b.get("k") == "MemberExpr" and b.get("mk") == "field":
-                            r.setdefault((strip_targs(b.get("owner") or ""), b["member"]), []).append((fn, a[1]))
+                            r.setdefault((stripped(b.get("owner") or ""), b["member"]), []).append((fn, a[1]))
         self._fwsyn = r
         return r
 
@@ -464,7 +479,7 @@ class Model:
                     out.add((n["ref"].get("qn") or n["ref"].get("name")).split("::")[-1])
             return out
         if k == "MemberExpr" and n.get("mk") == "field":
-            owner = strip_targs(n.get("owner") or "")
+            owner = stripped(n.get("owner") or "")
             if is_num_t(n.get("t")):
                 ws = self.field_write_exprs().get((owner, n["member"]))
                 key = ("F", owner, n["member"])
@@ -503,9 +518,15 @@ class Model:
                     if is_num_t(a.get("t")):
                         out |= self.atoms(fn, a, seen, depth + 1)
                 return out
-            if is_num_t(n.get("t")):
+            if self.is_model_cls(n.get("calleeClass")) and (n.get("t") or "").replace("const ", "") in \
+                    lin.INT_TYPES and k == "CXXMemberCallExpr":
                 out.add(last)
+                return out
+            if is_num_t(n.get("t")):
                 obj = F.call_object(n)
+                if not (obj is not None and is_num_t(obj.get("t"))
+                        and stripped(n.get("calleeClass") or "").split("::")[-1] in MATVEC_CLASSES):
+                    out.add(last)
                 if obj is not None and is_num_t(obj.get("t")):
                     out |= self.atoms(fn, obj, seen, depth + 1)
                 return out
@@ -537,9 +558,9 @@ class Model:
         self.memo[key] = r
         self.analysed.add(fn)
         k = fn.key
-        self.rets[k] = join(self.rets.get(k), r[0])
-        for i, v in r[1].items():
-            self.outs[(k, i)] = join(self.outs.get((k, i)), v)
+        self.rets.setdefault(k, set()).update(act.ret_alts)
+        for i, alts in act.out_alts.items():
+            self.outs.setdefault((k, i), set()).update(alts)
         return r
 
 
@@ -555,6 +576,8 @@ class Act:
         self.facts = set()
         self.record = False
         self.ret = None
+        self.ret_alts = set()       # the values of the individual return statements
+        self.out_alts = {}          # param index -> values at the individual exits
         self.decl_init = {}
         for n in fn.walk():
             if n.get("k") == "DeclStmt":
@@ -585,7 +608,7 @@ class Act:
             if init.get("field") and init.get("init") is not None:
                 v = self.eval(init["init"])
                 ft = self._field_type(fn.cls, init["field"])
-                self.st[("f", strip_targs(fn.cls or ""), init["field"])] = v
+                self.st[("f", stripped(fn.cls or ""), init["field"])] = v
                 self._pending_inits = getattr(self, "_pending_inits", [])
                 self._pending_inits.append((init, v, ft))
         st0 = dict(self.st)
@@ -594,19 +617,20 @@ class Act:
         # `if (k) x = sqrt(x/q); ... if (k) out << x/m;` sees the re-typed x only
         IN = {b: None for b in cfg.blocks}
         IN[cfg.entry] = [(frozenset(), st0)]
-        work = [cfg.entry]
+        work = {cfg.entry}
         rounds = 0
         while work:
             rounds += 1
             if rounds > 60000:
                 raise AnalysisBroken("R-HOM: dataflow of %s did not converge" % fn.short)
-            b = work.pop()
+            b = max(work)               # clang numbers the blocks against the control flow: entry is highest
+            work.discard(b)
             outs_b = self._flow_block(cfg, b, IN[b])
             for s, lst in outs_b.items():
                 new = _merge_disjuncts((IN[s] or []) + lst)
                 if IN[s] is None or not _same_disjuncts(IN[s], new):
                     IN[s] = new
-                    work.append(s)
+                    work.add(s)
         # recording pass
         self.record = True
         for init, v, ft in getattr(self, "_pending_inits", []):
@@ -620,13 +644,16 @@ class Act:
         for _, vs in IN.get(cfg.exit) or []:
             for kx, v in vs.items():
                 ex[kx] = join(ex.get(kx), v)
+            for i, p in enumerate(fn.params):
+                if "decl" in p and lin._mutable_ref(p.get("t", "")) and is_num_t(p.get("t")):
+                    self.out_alts.setdefault(i, set()).add(vs.get(p["decl"]))
         for i, p in enumerate(fn.params):
             if "decl" in p and lin._mutable_ref(p.get("t", "")) and is_num_t(p.get("t")):
                 outs[i] = ex.get(p["decl"])
         return (self.ret, outs)
 
     def _field_type(self, cls, name):
-        rec = self.fx.classes.get(strip_targs(cls or ""))
+        rec = self.fx.classes.get(stripped(cls or ""))
         if rec:
             for f in rec.get("fields", []):
                 if f.get("name") == name:
@@ -721,7 +748,7 @@ class Act:
         if k == "MemberExpr" and l.get("mk") == "field":
             base = unwrap((l.get("c") or [None])[0])
             this = base is not None and base.get("k") == "CXXThisExpr"
-            return ("field", strip_targs(l.get("owner") or ""), l["member"], l.get("t"), True, this)
+            return ("field", stripped(l.get("owner") or ""), l["member"], l.get("t"), True, this)
         base = Model._elem_base(l)
         if base is not None:
             r = self.lvalue(base)
@@ -788,6 +815,7 @@ class Act:
                 v = self.eval(c[0])
                 if self.record:
                     self.ret = join(self.ret, v)
+                    self.ret_alts.add(v)
             return
         if k == "CXXOperatorCallExpr":
             op = n.get("op")
@@ -1001,7 +1029,7 @@ class Act:
         c = n.get("c") or []
         if n.get("mk") != "field":
             return D0
-        owner = strip_targs(n.get("owner") or "")
+        owner = stripped(n.get("owner") or "")
         base = unwrap(c[0]) if c else None
         if owner.startswith("std::"):
             return self.eval(base) if base is not None else D0      # pair.first / .second: the element
@@ -1017,8 +1045,10 @@ class Act:
         args = call_args(n)
         name = plain(n)
         last = name.split("::")[-1]
-        qn = strip_targs(n.get("callee") or "")
+        qn = stripped(n.get("callee") or "")
         M = self.M
+        if effects and qn in M.internal and qn not in M.transforms:
+            self._internal(n, qn, args)
         if k in ("CXXConstructExpr", "CXXTemporaryObjectExpr"):
             g = self.fx.functions.get(n.get("calleeKey") or "")
             if g is not None and g.body is not None and M.in_scope(g) and effects:
@@ -1032,6 +1062,20 @@ class Act:
             return Z
         if k == "CXXOperatorCallExpr":
             op = n.get("op")
+            if op in ("()", "[]") and args and not is_num_t(args[0].get("t")) \
+                    and not stripped(args[0].get("t") or "").replace("const ", "").startswith("std::"):
+                # a function object (lambda, comparator): an ordinary call of its operator()
+                g = self.fx.functions.get(n.get("calleeKey") or "")
+                if g is not None and g.body is not None and (is_num_t(n.get("t")) or M.in_scope(g)):
+                    avals = [self.eval(args[i + 1]) if i + 1 < len(args) and is_num_t(p.get("t")) else None
+                             for i, p in enumerate(g.params)]
+                    ret, _o = M.activate(g, avals)
+                    if is_num_t(n.get("t")):
+                        return ret if ret is not None else U("%s returns no value" % g.short)
+                    return D0
+                if is_num_t(n.get("t")):
+                    return U("call of a function object (%s) without a body in the fact base" % short(qn))
+                return D0
             if op in ("()", "[]", "*", "->") and args:
                 if op == "*" and len(args) == 2:
                     return mul(self.eval(args[0]), self.eval(args[1]))
@@ -1109,6 +1153,12 @@ class Act:
             if not is_num_t(n.get("t")):
                 return D0
             return U("std function %s is not modelled" % name)
+        # ---- members of the matrix / vector classes: the object's degree (begin(), operator(), trans ...)
+        if k == "CXXMemberCallExpr":
+            obj = F.call_object(n)
+            cc0 = stripped(n.get("calleeClass") or "")
+            if obj is not None and is_num_t(obj.get("t")) and cc0.split("::")[-1] in MATVEC_CLASSES:
+                return self.eval(obj) if is_num_t(n.get("t")) else D0
         # ---- in-place transforms (tabled)
         tr = M.transforms.get(qn)
         if tr is not None:
@@ -1125,8 +1175,6 @@ class Act:
                     self._internal(n, qn, args)
                     self.assign(n, args[i], nv)
             return D0
-        if effects:
-            self._internal(n, qn, args)
         # ---- tabled sources
         if qn in M.src:
             if qn in M.src_args0:
@@ -1139,7 +1187,7 @@ class Act:
         needs_val = is_num_t(n.get("t"))
         pts = [p.get("t", "") for p in g.params] if g is not None else (lin.param_types(self.fx, n) or [])
         outs = [i for i, t in enumerate(pts) if lin._mutable_ref(t) and is_num_t(t) and i < len(args)]
-        cc = strip_targs(n.get("calleeClass") or "")
+        cc = stripped(n.get("calleeClass") or "")
         if g is None or g.body is None:
             if cc in M.cls_default and needs_val:
                 return M.cls_default[cc]
@@ -1237,9 +1285,7 @@ def _merge_disjuncts(lst, limit=8):
 def _same_disjuncts(a, b):
     if len(a) != len(b):
         return False
-    sa = sorted(((sorted(map(str, f)), sorted(map(str, v.items()))) for f, v in a))
-    sb = sorted(((sorted(map(str, f)), sorted(map(str, v.items()))) for f, v in b))
-    return sa == sb
+    return {(f, frozenset(v.items())) for f, v in a} == {(f, frozenset(v.items())) for f, v in b}
 
 
 def _weak(obj):
@@ -1325,6 +1371,7 @@ def rule_hom(ctx):
         ctx.saw(fn)
     gaps = T.get("gaps", {})
     used_gaps = set()
+    undecided = []          # raised as AnalysisBroken at the end unless a definite violation explains them
     # ---------------------------------------------------------------- writer sinks
     groups = {}
     for fn, node, operand, val, tag in M.sinks:
@@ -1364,10 +1411,10 @@ def rule_hom(ctx):
                 where = fn.where(node)
             elif dem[1] == 0:
                 if val[3] is None:
-                    raise AnalysisBroken("R-HOM: %s: the exponent of the a priori reference deviation in %s "
-                                         "cannot be determined (sum of terms that use it differently)"
-                                         % (key, F.expr_text(operand)))
-                if val[3] > 0:
+                    unknown.append((fn, node, U("the exponent of the a priori reference deviation in %s cannot be "
+                                                "determined (sum of terms that use it differently)"
+                                                % F.expr_text(operand))))
+                elif val[3] > 0:
                     msgs.append("%s is scaled by the a priori reference deviation itself (apriori_m_0()^%s): a "
                                 "dimensionless result must take its scale from m_0(), the deviation selected by "
                                 "the reference-deviation type" % (F.expr_text(operand), val[3]))
@@ -1378,8 +1425,9 @@ def rule_hom(ctx):
                 ctx.note("R-HOM gap (tabled): %s - %s" % (key, gaps[key]))
                 continue
             fn, node, val = unknown[0]
-            raise AnalysisBroken("R-HOM: the degree of sink %s at %s cannot be inferred: %s"
-                                 % (key, fn.where(node), vstr(val)))
+            undecided.append((fkey(fn), "the degree of sink %s at %s cannot be inferred: %s"
+                              % (key, fn.where(node), vstr(val))))
+            continue
         n_sink += 1
         if any(demanded(M, a)[0][1] != 0 for _, _, _, _, a in groups[key]):
             n_nonzero += 1
@@ -1391,19 +1439,23 @@ def rule_hom(ctx):
     # ---------------------------------------------------------------- homogeneity of sums / comparisons
     by_fn = {}
     for fn, node, msg in M.issues:
-        by_fn.setdefault(fn.key, (fn, []))[1].append((node, msg))
+        by_fn.setdefault(fkey(fn), []).append((fn, node, msg))
     n_h = 0
     n_checks = 0
+    per = {}
     for fn in sorted(M.analysed, key=lambda f: f.key):
         cnt = M.checked.get(fn.key, 0)
-        if not cnt:
-            continue
+        if cnt:
+            e = per.setdefault(fkey(fn), [fn, 0])
+            e[1] += cnt
+    for name in sorted(per):
+        fn, cnt = per[name]
         n_h += 1
         n_checks += cnt
-        iss = by_fn.get(fn.key, (fn, []))[1]
-        key = "%s:homogeneous" % fkey(fn)
-        ctx.report(RULE, key, not iss, fn.where(iss[0][0]) if iss else fn.where(), fkey(fn),
-                   msg="; ".join(sorted({m for _, m in iss})), detail={"checked": cnt})
+        iss = by_fn.get(name, [])
+        key = "%s:homogeneous" % name
+        ctx.report(RULE, key, not iss, iss[0][0].where(iss[0][1]) if iss else fn.where(), name,
+                   msg="; ".join(sorted({m for _, _, m in iss})), detail={"checked": cnt})
     ctx.floor(RULE, fl["homogeneous_functions"], n_h, "functions with checked sums/comparisons")
     ctx.floor(RULE, fl["homogeneity_checks"], n_checks, "sums/comparisons/function arguments with two definite degrees")
     # ---------------------------------------------------------------- statistics accessors of LocalNetwork
@@ -1423,27 +1475,33 @@ def rule_hom(ctx):
                              parse_value(pspec["degree"]), pspec.get("m0_exponent")))
         else:
             vals.append(("%s:return" % fkey(fn), M.rets.get(fn.key), dem, want_m))
-        for key, val, dm, wm in vals:
-            if val is None or val[0] in ("u", "c"):
+        for key, alts, dm, wm in vals:
+            alts = alts or {None}
+            msgs = []
+            unk = []
+            for val in sorted(alts, key=str):
+                if val is None or val[0] in ("u", "c"):
+                    unk.append(val)
+                elif val[0] == "x":
+                    msgs.append(vstr(val))
+                elif val[0] == "d":
+                    if val[1] != dm[1]:
+                        msgs.append("%s, the property demands degree %s" % (vstr(val), dm[1]))
+                    elif wm is not None:
+                        if val[2] is None:
+                            unk.append(U("exponent of m_0() is not determined"))
+                        elif val[2] != Fraction(str(wm)):
+                            msgs.append("the actual reference deviation m_0() enters with exponent %s, "
+                                        "expected %s (%s)" % (val[2], wm, vstr(val)))
+            if unk and not msgs:
                 if key in gaps:
                     used_gaps.add(key)
                     continue
-                raise AnalysisBroken("R-HOM: the degree of %s cannot be inferred: %s" % (key, vstr(val)))
+                undecided.append((fkey(fn), "the degree of %s cannot be inferred: %s" % (key, vstr(unk[0]))))
+                continue
             n_acc += 1
-            ok = True
-            msg = ""
-            if val[0] == "x":
-                ok, msg = False, vstr(val)
-            elif val[0] == "d":
-                if val[1] != dm[1]:
-                    ok, msg = False, "%s, the property demands degree %s" % (vstr(val), dm[1])
-                elif wm is not None:
-                    if val[2] is None:
-                        raise AnalysisBroken("R-HOM: %s: exponent of m_0() is not determined" % key)
-                    if val[2] != Fraction(str(wm)):
-                        ok, msg = False, ("the actual reference deviation m_0() enters with exponent %s, "
-                                          "expected %s (%s)" % (val[2], wm, vstr(val)))
-            ctx.report(RULE, key, ok, fn.where(), fkey(fn), msg=msg)
+            ctx.report(RULE, key, not msgs, fn.where(), fkey(fn), msg="; ".join(msgs),
+                       detail={"alternatives": len(alts)})
     ctx.floor(RULE, fl["accessors"], n_acc, "statistics accessors")
     # ---------------------------------------------------------------- writes of the tabled fields
     fw = {}
@@ -1470,8 +1528,9 @@ def rule_hom(ctx):
                 if gk in gaps:
                     used_gaps.add(gk)
                     continue
-                raise AnalysisBroken("R-HOM: value written to %s in %s cannot be inferred: %s"
-                                     % (k, fn.where(node), vstr(v)))
+                undecided.append((fkey(fn), "value written to %s in %s cannot be inferred: %s"
+                                  % (k, fn.where(node), vstr(v))))
+                continue
             if v[0] == "x":
                 msgs.append(vstr(v))
                 where = fn.where(node)
@@ -1499,7 +1558,8 @@ def rule_hom(ctx):
         for fn, node, v, dem in gi[key]:
             where = where or fn.where(node)
             if v is None or v[0] in ("u", "c"):
-                raise AnalysisBroken("R-HOM: %s at %s cannot be inferred: %s" % (key, fn.where(node), vstr(v)))
+                undecided.append((fkey(fn), "%s at %s cannot be inferred: %s" % (key, fn.where(node), vstr(v))))
+                continue
             if v[0] == "x" or (v[0] == "d" and v[1] != dem[1]):
                 msgs.append("the matrix has %s, the solver expects degree %s (covariances divided by the "
                             "square of the a priori reference deviation)" % (vstr(v), dem[1]))
@@ -1509,6 +1569,18 @@ def rule_hom(ctx):
     stale = [g for g in gaps if g not in used_gaps]
     for g in stale:
         ctx.note("R-HOM: tabled gap %s is no longer needed" % g)
+    if undecided:
+        # an instance that cannot be decided is exit 2 - unless a definite violation in the same function or in
+        # the modelled LocalNetwork members (whose values flow into every writer) is reported anyway
+        badkeys = [i.key[len(RULE) + 1:] for i in ctx.instances if (not i.ok) and i.rule == RULE]
+        model = short(cls) + "::"
+        left = [(f, u) for f, u in undecided
+                if not any(k.startswith(f + ":") or k.startswith(model) for k in badkeys)]
+        if left:
+            raise AnalysisBroken("R-HOM: %s%s" % (left[0][1], "" if len(left) == 1 else
+                                                  " (and %d more)" % (len(left) - 1)))
+        for f, u in undecided:
+            ctx.note("R-HOM: not decided next to a definite violation: " + u)
     return M
 
 
@@ -1531,7 +1603,7 @@ def _pred_of(M, fn, cond, depth=0):
     if n is None:
         return None
     if is_call(n):
-        q = strip_targs(n.get("callee") or "")
+        q = stripped(n.get("callee") or "")
         if q in preds:
             return (q, neg)
         return None
@@ -1616,37 +1688,43 @@ def rule_hom_selector(ctx):
     for q in S["predicates"]:
         fx.fn(q)
     scope = [f for f in fx.functions.values() if f.body is not None and
-             (M.in_scope(f) or (f.cls and strip_targs(f.cls) == cls))]
+             (M.in_scope(f) or (f.cls and stripped(f.cls) == cls))]
     # S1: distribution functions under the right polarity; S2: both alternatives in the same function
     n1 = 0
     n_fn = 0
+    groups = {}
     for fn in sorted(scope, key=lambda f: getattr(f, "ukey", f.key)):
+        groups.setdefault(fkey(fn), []).append(fn)       # instantiations of one template are one instance
+    for name in sorted(groups):
         calls = {}
-        for n in fn.walk():
-            if n.get("k") == "CallExpr":
-                q = strip_targs(n.get("callee") or "")
-                if q in S["typed_callees"]:
-                    calls.setdefault(q, []).append(n)
+        for fn in groups[name]:
+            for n in fn.walk():
+                if n.get("k") == "CallExpr":
+                    q = strip_targs(n.get("callee") or "")
+                    if q in S["typed_callees"]:
+                        calls.setdefault(q, []).append((fn, n))
         if not calls:
             continue
-        ctx.saw(fn)
+        for fn in groups[name]:
+            ctx.saw(fn)
+        fn0 = groups[name][0]
         n_fn += 1
         for q, ns in sorted(calls.items()):
             want = S["typed_callees"][q]
             bad = []
-            for n in ns:
+            for fn, n in ns:
                 types = polarity_at(M, fn, n)
                 if types != {want}:
-                    bad.append((n, types))
+                    bad.append((fn, n, types))
             n1 += 1
-            ctx.report(RULE_SEL, "%s:%s-under-%s" % (fkey(fn), q.split("::")[-1], want), not bad,
-                       fn.where(bad[0][0]) if bad else fn.where(ns[0]), fkey(fn),
+            ctx.report(RULE_SEL, "%s:%s-under-%s" % (name, q.split("::")[-1], want), not bad,
+                       bad[0][0].where(bad[0][1]) if bad else ns[0][0].where(ns[0][1]), name,
                        msg="" if not bad else "%s is reached when the reference deviation type is %s; it belongs "
                        "to the %s reference deviation only" % (q.split("::")[-1],
-                                                              " or ".join(sorted(bad[0][1])) or "never selected",
+                                                              " or ".join(sorted(bad[0][2])) or "never selected",
                                                               want))
         missing = [q for q in S["typed_callees"] if q not in calls]
-        ctx.report(RULE_SEL, "%s:both-alternatives" % fkey(fn), not missing, fn.where(), fkey(fn),
+        ctx.report(RULE_SEL, "%s:both-alternatives" % name, not missing, fn0.where(), name,
                    msg="" if not missing else "the function uses %s but never %s: one alternative of the "
                    "reference-deviation type is not handled" % (
                        ", ".join(sorted(c.split("::")[-1] for c in calls)),
@@ -1680,28 +1758,51 @@ def rule_hom_selector(ctx):
     n_lab = 0
     rx_post = re.compile(S["label_aposteriori"], re.I)
     rx_apr = re.compile(S["label_apriori"], re.I)
-    for fn in sorted(scope, key=lambda f: getattr(f, "ukey", f.key)):
+    for name in sorted(groups):
         hits = []
-        for n in fn.walk():
-            if n.get("k") != "StringLiteral":
-                continue
-            v = n.get("v") or ""
-            t = "aposteriori" if rx_post.search(v) else ("apriori" if rx_apr.search(v) else None)
-            if t is None:
-                continue
-            types = polarity_at(M, fn, n)
-            if types == {"apriori", "aposteriori"}:
-                continue                # written unconditionally: a heading, not a selected label
-            hits.append((n, t, types))
+        for fn in groups[name]:
+            for n in fn.walk():
+                if n.get("k") != "StringLiteral":
+                    continue
+                v = n.get("v") or ""
+                t = "aposteriori" if rx_post.search(v) else ("apriori" if rx_apr.search(v) else None)
+                if t is None:
+                    continue
+                types = polarity_at(M, fn, n)
+                if types == {"apriori", "aposteriori"}:
+                    continue                # written unconditionally: a heading, not a selected label
+                hits.append((fn, n, t, types))
         if not hits:
             continue
-        ctx.saw(fn)
+        for fn in groups[name]:
+            ctx.saw(fn)
         n_lab += 1
-        bad = [(n, t, ty) for n, t, ty in hits if ty != {t}]
-        ctx.report(RULE_SEL, "%s:type-labels" % fkey(fn), not bad, fn.where(bad[0][0]) if bad else fn.where(hits[0][0]),
-                   fkey(fn), msg="" if not bad else "the label %r is written when the reference deviation type is %s"
-                   % (bad[0][0].get("v"), " or ".join(sorted(bad[0][2]))), detail={"labels": len(hits)})
+        bad = [h for h in hits if h[3] != {h[2]}]
+        ctx.report(RULE_SEL, "%s:type-labels" % name, not bad,
+                   bad[0][0].where(bad[0][1]) if bad else hits[0][0].where(hits[0][1]), name,
+                   msg="" if not bad else "the label %r is written when the reference deviation type is %s"
+                   % (bad[0][1].get("v"), " or ".join(sorted(bad[0][3])) or "never selected"),
+                   detail={"labels": len(hits)})
     ctx.floor(RULE_SEL, S["floors"]["label_functions"], n_lab, "functions writing a type label under a type predicate")
+    # S5: a value written under a tag that names one of the two reference deviations is that deviation, not
+    # the one selected by the type (m_0())
+    allowed = {t: [frozenset(x) for x in v] for t, v in S["label_sources"].items()}
+    lab = {}
+    for fn, node, operand, val, tag in M.sinks:
+        if not M.in_scope(fn) or not tag:
+            continue
+        t = "aposteriori" if rx_post.search(tag) else ("apriori" if rx_apr.search(tag) else None)
+        if t is None:
+            continue
+        lab.setdefault("%s:%s:source" % (fkey(fn), tag), []).append((fn, node, t, frozenset(M.atoms(fn, operand))))
+    for key in sorted(lab):
+        bad = [(fn, node, t, at) for fn, node, t, at in lab[key] if at not in allowed[t]]
+        fn, node = (bad[0][0], bad[0][1]) if bad else (lab[key][0][0], lab[key][0][1])
+        ctx.report(RULE_SEL, key, not bad, fn.where(node), fkey(fn),
+                   msg="" if not bad else "the value written under this name is built from {%s}; the %s reference "
+                   "deviation is %s" % (", ".join(sorted(bad[0][3])), bad[0][2],
+                                        " or ".join("{%s}" % ", ".join(sorted(a)) for a in allowed[bad[0][2]])))
+    ctx.floor(RULE_SEL, S["floors"]["labelled_values"], len(lab), "values written under a name of a reference deviation")
 
 
 def _field_atoms(expr):
